@@ -241,6 +241,39 @@ func c17build(c *Ctx, i int, rng *rand.Rand) {
 	// --- Persist under the file-size limit
 	path, outDir := outPath(c, "c17p")
 	defer os.RemoveAll(outDir)
+	// --- WriteTo into a real file (not only into a writer of the harness) whose
+	// growth the kernel stops at a few offsets
+	for k, l := range offsetsFor(rng, size, 4096, false) {
+		if k%7 != 0 && l != size-1 && l != size-52 {
+			continue
+		}
+		f, err := os.Create(path)
+		if err != nil {
+			c.R.Fail("harness", "%v", err)
+			return
+		}
+		var n int64
+		var werr error
+		lerr := withFsizeLimit(uint64(l), func() {
+			guard(c.R, fmt.Sprintf("%s WriteTo(file) limit %d", id, l), func() { n, werr = writeTo(seg, f) })
+		})
+		f.Close()
+		st, _ := os.Stat(path)
+		os.Remove(path)
+		if lerr != nil {
+			c.R.Fail("harness", "setrlimit: %v", lerr)
+			return
+		}
+		if werr == nil {
+			got := int64(-1)
+			if st != nil {
+				got = st.Size()
+			}
+			c.R.Fail("writeto-swallowed", "%s: WriteTo into a file that cannot grow beyond %d of %d bytes reported success (n=%d, file has %d bytes)", id, l, size, n, got)
+			break
+		}
+		c.R.Inc("faults_writeto_file", 1)
+	}
 	for k, l := range offsetsFor(rng, size, 4096, false) {
 		os.Remove(path)
 		if k%2 == 1 {
